@@ -459,3 +459,116 @@ func c06Run(c *c06Case) (obs c06Obs) {
 }
 
 func guestAuth() *codec.VAuth { return &codec.VAuth{Scheme: "guest"} }
+
+// ---- C06: two windows around the established state on the server side ---------------------------------
+//
+// (1) finish-window: once the server has told the peer that the session is finished (the peer has the
+// finished envelope), a send on the server channel is refused — however long the server's own tear-down
+// (stopping its receiver: up to one read poll on TCP) still takes.
+// (2) register-probe: the registration callback is handed the server channel while the session is not
+// established yet; a send it attempts there is refused, whether the registration then succeeds or not.
+
+func c06ExtraCases(e *Env) error {
+	for _, tr := range []string{"tcp", "inproc", "ws"} {
+		for _, how := range []string{"finish", "fail"} {
+			e.Rep.Eval()
+			e.Rep.Count("finish-window " + tr)
+			info := map[string]interface{}{"family": "finish-window", "transport": tr, "how": how}
+			ct, st, cleanup, err := pair.Transports(tr, 0, 8)
+			if err != nil {
+				cleanup()
+				e.Rep.Note("harness: " + err.Error())
+				continue
+			}
+			cc, sc, err := pair.Established(ct, st, 8, "c06-fw-"+tr+how, lime.Node{Identity: lime.Identity{Name: "u", Domain: "d"}, Instance: "i"})
+			if err != nil {
+				cleanup()
+				e.Rep.Note("harness: " + err.Error())
+				continue
+			}
+			go func() {
+				for range cc.MsgChan() {
+				}
+			}()
+			fctx, fcancel := context.WithTimeout(context.Background(), 10*time.Second)
+			fdone := make(chan struct{})
+			go func() {
+				defer close(fdone)
+				if how == "finish" {
+					_ = sc.FinishSession(fctx)
+				} else {
+					_ = sc.FailSession(fctx, &lime.Reason{Code: 1, Description: "scripted"})
+				}
+			}()
+			// the peer has the terminal session envelope
+			deadline := time.Now().Add(4 * time.Second)
+			for time.Now().Before(deadline) && cc.State() == lime.SessionStateEstablished {
+				time.Sleep(time.Millisecond)
+			}
+			if cc.State() == lime.SessionStateEstablished {
+				e.Rep.Note("harness: finish-window: the client never observed the end of the session")
+			} else {
+				time.Sleep(50 * time.Millisecond)
+				m := &lime.Message{}
+				m.ID = "after-terminal"
+				m.SetContent(lime.TextDocument("x"))
+				sctx, scancel := context.WithTimeout(context.Background(), time.Second)
+				serr := sc.SendMessage(sctx, m)
+				scancel()
+				if serr == nil {
+					e.Rep.Violate("impl", "c06-send-after-terminal", fmt.Sprintf("finish-window (%s, %s): the peer already has the %s session envelope; 50 ms later SendMessage on the server channel (state %v) returned nil", tr, how, cc.State(), sc.State()), info)
+				} else {
+					e.Rep.Nontrivial("finish-window " + tr + how)
+				}
+			}
+			fcancel()
+			go func() { <-fdone; _ = cc.Close(); cleanup() }()
+		}
+	}
+	for _, regOK := range []bool{true, false} {
+		e.Rep.Eval()
+		e.Rep.Count("register-probe")
+		info := map[string]interface{}{"family": "register-probe", "register_ok": regOK}
+		ct, st, err := pair.InProc(8)
+		if err != nil {
+			return err
+		}
+		sc := lime.NewServerChannel(st, 8, pair.ServerNode, "c06-reg")
+		cc := lime.NewClientChannel(ct, 8)
+		ctx, cancel := context.WithTimeout(context.Background(), 5*time.Second)
+		var sendErr, ntfErr error
+		var stateSeen lime.SessionState
+		sdone := make(chan struct{})
+		go func() {
+			defer close(sdone)
+			_ = sc.EstablishSession(ctx, []lime.SessionCompression{lime.SessionCompressionNone}, []lime.SessionEncryption{lime.SessionEncryptionNone},
+				[]lime.AuthenticationScheme{lime.AuthenticationSchemeGuest},
+				func(context.Context, lime.Identity, lime.Authentication) (*lime.AuthenticationResult, error) {
+					return lime.MemberAuthenticationResult(), nil
+				},
+				func(rctx context.Context, n lime.Node, ch *lime.ServerChannel) (lime.Node, error) {
+					stateSeen = ch.State()
+					m := &lime.Message{}
+					m.ID = "welcome"
+					m.SetContent(lime.TextDocument("hello"))
+					sendErr = ch.SendMessage(rctx, m)
+					ntfErr = ch.SendNotification(rctx, &lime.Notification{Event: lime.NotificationEventReceived})
+					if !regOK {
+						return lime.Node{}, errors.New("registration refused (scripted)")
+					}
+					return n, nil
+				})
+		}()
+		_, _ = cc.EstablishSession(ctx, lime.NoneCompressionSelector, lime.NoneEncryptionSelector,
+			lime.Identity{Name: "alice", Domain: "verif.local"}, lime.GuestAuthenticator, "home")
+		<-sdone
+		cancel()
+		if sendErr == nil || ntfErr == nil {
+			e.Rep.Violate("impl", "c06-send-before-established", fmt.Sprintf("register-probe (registration succeeds=%v): inside the registration callback the channel reports state %v; SendMessage returned %v and SendNotification %v — a data envelope was written before the established session", regOK, stateSeen, sendErr, ntfErr), info)
+		} else {
+			e.Rep.Nontrivial(fmt.Sprintf("register-probe %v", regOK))
+		}
+		go func() { _ = cc.Close(); _ = sc.Close() }()
+	}
+	return nil
+}
